@@ -44,12 +44,13 @@ template <class App> std::set<std::string> culprit_kinds(const Space<App> &S, co
     return kinds;
 }
 
-template <class App> void check_state(const Space<App> &S, const Hist &h, bool full_negatives, uint64_t rot)
+template <class App> void check_state(const Space<App> &S, const Hist &h, bool full_negatives, uint64_t rot, size_t state_index)
 {
     const std::string sid = std::string(App::name()) + "|" + Space<App>::hist_id(h);
     mark(sid + "|save", "save", "");
     App inst;
     S.replay(inst, h);
+    if(state_index != (size_t)-1) S.verify(inst, state_index);
     const std::string want_obs = inst.observable();
     const std::string text = save(inst);
     vp::transition();
@@ -90,7 +91,7 @@ template <class App> void check_state(const Space<App> &S, const Hist &h, bool f
             if(h.empty() && text != f.header)
                 vp::violation("untouched-not-header-only|save_to_file|" + std::string(App::name()), sid + "|save", "untouched application saved: " + vp::show(text));
             vp::outcome(std::string(App::name()) + ":lines=" + std::to_string(n));
-            if(n) vp::nontrivial(vp::fnv(text));
+            if(n) vp::nontrivial(vp::fnv(inst.canon()));
             if(n >= 3) vp::sample(S.show(h) + "  =>  " + vp::show(text.substr(f.header.size(), 300)), 6);
         }
     }
@@ -214,7 +215,7 @@ template <class App> void run_app(int depth, int root_depth, int full_neg_depth)
         Hist h;
         if(!Space<App>::parse_hist(id.substr(b1 + 1, b2 - b1 - 1), h)) return;
         for(uint16_t c : h) if(!(c < S.ops.size() || (c >= ROOT0 && c - ROOT0 < (int)S.roots.size()))) return;
-        supervise(app, 1, [&](size_t) { check_state(S, h, true, 0); }, crashed);
+        supervise(app, 1, [&](size_t) { check_state(S, h, true, 0, (size_t)-1); }, crashed);
         return;
     }
     S.explore(depth, root_depth);
@@ -225,7 +226,7 @@ template <class App> void run_app(int depth, int root_depth, int full_neg_depth)
         const Hist &h = S.states[todo[k].first];
         bool rooted = !h.empty() && h[0] >= ROOT0;
         vp::state();
-        check_state(S, h, rooted ? h.size() <= 2 : (int)h.size() <= full_neg_depth, todo[k].second);
+        check_state(S, h, rooted ? h.size() <= 2 : (int)h.size() <= full_neg_depth, todo[k].second, todo[k].first);
     }, crashed);
 }
 
